@@ -140,6 +140,9 @@ type scenario struct {
 	// onRefresh is run right before request RefreshAt (real geoip.File:
 	// rewrite the database files and call Refresh).
 	onRefresh func()
+	// onRefreshRn is the same with access to the runner, so that requests can
+	// be served while Refresh is running (race.go).
+	onRefreshRn func(rn *runner)
 }
 
 // geoAt is the GeoIP table in force for request i.
@@ -443,6 +446,9 @@ func runScenario(sc *scenario, ecsCount, noECSCount int) (os []obs) {
 		if sc.Geo2 != nil && i == sc.RefreshAt {
 			if sc.onRefresh != nil {
 				sc.onRefresh()
+			}
+			if sc.onRefreshRn != nil {
+				sc.onRefreshRn(rn)
 			}
 			rn.geo = sc.Geo2
 		}
@@ -1862,6 +1868,9 @@ func main() {
 	// The GeoIP databases are refreshed in the middle of a history.
 	refreshCampaign(r, m, o.Rand("refresh"), n/8)
 	geoRefreshCampaign(r, m, o.Rand("geoip-refresh"), nDB/2, 6)
+	// Wave h: look-ups at definite moments of a running Refresh, a Refresh
+	// while a look-up is parked inside Data.
+	geoRaceCampaign(r, m, o.Rand("geoip-race"), nDB/2, 10)
 	fixedCases(r, m)
 	unitCampaign(r, m)
 	// Round 4: the configuration file and the wire.
